@@ -3205,6 +3205,14 @@ func (bc *Blockchain) IsTxStillRelevant(t *transaction.Transaction, txpool *memp
 	} else if txpool.HasConflicts(t, bc) {
 		return false
 	}
+	// Policy (blocked accounts) and fee settings could have been changed by
+	// the block, the transaction must still satisfy them.
+	if err := bc.policy.CheckPolicy(bc.dao, t); err != nil {
+		return false
+	}
+	if t.NetworkFee < int64(t.Size())*bc.FeePerByte()+bc.CalculateAttributesFee(t) {
+		return false
+	}
 	if err := bc.verifyTxAttributes(bc.dao, t, isPartialTx); err != nil {
 		return false
 	}
